@@ -10,6 +10,8 @@ META = {
         "rtc x allow_event_without_transition x sync/async callbacks, sync and in-loop drivers) driven "
         "by histories of 5-40 events incl. unknown and prefix-named events with the guard valuation "
         "redrawn before every event; every step is checked online against the reference selection rule. "
+        ""
+        "30% of the machines are written in an alternative declaration style (inheritance split, keyword events, Event objects, from_/grouped targets, dict/enum containers) and 15% of the multi-guard transitions carry their guards as ONE boolean expression (both operator spellings). "
         "distinct_nontrivial = distinct (machine shape, history) in which some event had >=2 matching "
         "candidates and a non-first one won, or no candidate was enabled, or a validator aborted."
     ),
